@@ -191,10 +191,10 @@ Section Sound.
   Qed.
 End Sound.
 
-Lemma equalObjects_nonrefs : forall f limit g o1 o2 pairs depth,
+Lemma equalObjectsD_nonrefs : forall f limit g o1 o2 pairs depth,
   isref o1 && isref o2 = false -> (limit <? depth) = false ->
-  equalObjects (S f) limit g o1 o2 pairs depth =
-  compareDeref g (fun x y p => equalObjects f limit g x y p (depth + 1)) o1 o2 pairs.
+  equalObjectsD (S f) limit g o1 o2 pairs depth =
+  compareDeref g (fun x y p => equalObjectsD f limit g x y p (depth + 1)) o1 o2 pairs.
 Proof.
   intros f limit g o1 o2 pairs depth H L. simpl. rewrite L.
   destruct o1, o2; simpl in *; try reflexivity; discriminate.
@@ -202,7 +202,7 @@ Qed.
 
 Lemma eq_sound_gen : forall g limit, wfg g -> forall n fuel o1 o2 pairs depth,
   wfo o1 = true -> wfo o2 = true -> evenlen pairs = true ->
-  equalObjects fuel limit g o1 o2 pairs depth = CT -> Phyp n g pairs -> sim n g o1 g o2.
+  equalObjectsD fuel limit g o1 o2 pairs depth = CT -> Phyp n g pairs -> sim n g o1 g o2.
 Proof.
   intros g limit Hg n. induction n as [n IH] using lt_wf_ind.
   intros fuel o1 o2 pairs depth W1 W2 Ev H HP.
@@ -219,7 +219,7 @@ Proof.
       apply (sim_ref_gen_l (S m) g n2 g2). apply sim_refl.
     + destruct (containsPair pairs n1 n2) eqn:EC.
       * apply Phyp_contains with (pairs := pairs); assumption.
-      * apply compareDeref_sound with (rec := fun x y p => equalObjects f limit g x y p (depth + 1))
+      * apply compareDeref_sound with (rec := fun x y p => equalObjectsD f limit g x y p (depth + 1))
                                       (pairs := appendPair pairs n1 n2); auto.
         intros x y Wx Wy Hxy. apply (IH m (Nat.lt_succ_diag_r m) f x y (appendPair pairs n1 n2) (depth + 1)); auto.
         apply evenlen_appendPair. exact Ev.
@@ -228,8 +228,8 @@ Proof.
         assert (k < S m)%nat as Lk' by lia.
         apply (IH k Lk' (S f) (ORef n1 g1) (ORef n2 g2) pairs depth); auto.
         apply Phyp_le with (n := S m). lia. exact HP.
-  - rewrite equalObjects_nonrefs in H by assumption.
-    apply compareDeref_sound with (rec := fun x y p => equalObjects f limit g x y p (depth + 1)) (pairs := pairs); auto.
+  - rewrite equalObjectsD_nonrefs in H by assumption.
+    apply compareDeref_sound with (rec := fun x y p => equalObjectsD f limit g x y p (depth + 1)) (pairs := pairs); auto.
     intros x y Wx Wy Hxy. apply (IH m (Nat.lt_succ_diag_r m) f x y pairs (depth + 1)); auto.
     apply Phyp_le with (n := S m). lia. exact HP.
 Qed.
